@@ -2,6 +2,7 @@ package rules
 
 import (
 	"fmt"
+	"go/token"
 	"go/types"
 	"sort"
 	"strings"
@@ -43,6 +44,16 @@ func c19Homes(c *Ctx, rule string) {
 		for _, p := range f.Params {
 			if derefNamed(p.Type()) == posT {
 				takesPos = true
+			}
+			// the position handed over inside a small struct of the package (position + side to move)
+			if n := derefNamed(p.Type()); n != nil && n.Obj().Pkg() == dec.Pkg.Pkg {
+				if st, ok := n.Underlying().(*types.Struct); ok {
+					for i := 0; i < st.NumFields(); i++ {
+						if derefNamed(st.Field(i).Type()) == posT {
+							takesPos = true
+						}
+					}
+				}
 			}
 		}
 		if takesPos && readsCastling(c, f, castT, 0) {
@@ -111,7 +122,12 @@ func c19Homes(c *Ctx, rule string) {
 		case 0:
 			k(st, nil)
 		case 1:
-			k(st, absint.NewSym(res.At(0).Type(), name, args...))
+			v := absint.NewSym(res.At(0).Type(), name, args...)
+			// a freshly made error is not nil (a helper's 'return fmt.Errorf(..)' tested by its caller with err != nil)
+			if callee.Pkg != nil && (callee.Pkg.Pkg.Path() == "fmt" && name == "Errorf" || callee.Pkg.Pkg.Path() == "errors" && name == "New") {
+				absint.Assume(st, absint.BinOp(token.NEQ, v, absint.Const{T: res.At(0).Type()}, types.Typ[types.Bool]), true)
+			}
+			k(st, v)
 		default:
 			tp := &absint.Tuple{}
 			for i := 0; i < res.Len(); i++ {
